@@ -52,9 +52,15 @@ type Case struct {
 	K       int         `json:"k"`
 	Files   []int       `json:"files,omitempty"` // tar/untar entries: file sizes of a small tree
 	Perturb []int       `json:"perturb,omitempty"`
+	CLI     *CLICase    `json:"cli,omitempty"` // set: a CLI-level case (cli_test.go); Entry is "cli"
 }
 
 func genCase(t *rapid.T) Case {
+	if cliEnabled() { // a small fraction of the cases drive the freshly built CLI (cli_test.go)
+		if c, ok := genCLI(t); ok {
+			return c
+		}
+	}
 	var c Case
 	c.Entry = rapid.SampledFrom(entries).Draw(t, "entry")
 	c.Point = rapid.SampledFrom(points[c.Entry]).Draw(t, "point")
@@ -194,6 +200,9 @@ func sameTree(a, b map[string][]byte) string {
 }
 
 func run(c Case) (o hx.Outcome) {
+	if c.CLI != nil {
+		return runCLI(c)
+	}
 	sz := c.Sizes
 	blob := gen.Expand(c.Pieces)
 	spans := ref.Chunk(blob, sz.Min, sz.Avg, sz.Max, false)
@@ -412,7 +421,7 @@ var spec = &hx.Spec[Case]{
 	Level: "fault_enumeration",
 	Rule: "cases = (entry point in AssembleFile with/without a file seed, VerifyIndex, ChopFile, Copy, ChunkStream, IndexFromFile, Tar, UnTar, UnTarIndex; worker count; a cancellation point: before the call, the k-th store call of a kind, the k-th hit of a hook site in feeder or worker, the k-th filesystem call); for inputs of <= 12 chunks every k is enumerated for every point; " +
 		"oracle: nil error => the work is complete by the uncancelled oracle (VerifyIndex runs on a file corrupt in its last chunk, so nil is always wrong). non-trivial = the cancellation was delivered after the first and before the last unit of work; distinct by (entry, point, k, n, units, outcome)",
-	Assumptions: []string{"any non-nil error is accepted (worker errors racing the cancellation are legitimate); Interrupted is only counted", "CLI level (signals) is covered in the thorough tier only"},
+	Assumptions: []string{"any non-nil error is accepted (worker errors racing the cancellation are legitimate); Interrupted is only counted", "CLI level (signals): only when the driver provides the freshly built CLI in $VERIF_DESYNC_BIN (quick: extract; thorough: all seven commands)"},
 	Required: []string{"entry:assemble", "entry:assemble-seed", "entry:verifyindex", "entry:chop", "entry:copy", "entry:chunkstream", "entry:indexfromfile", "entry:tar", "entry:untar", "entry:untarindex",
 		"point:before", "point:store", "point:hook", "point:fs", "cancel-delivered", "cancel-mid-flight", "returned-interrupted"},
 	Gen:      genCase,
